@@ -33,6 +33,62 @@ def situation(snap, world, basis, q):
     return f"globals={min(g, 2)}{'+' if g > 2 else ''},locals={min(loc, 2)},dmm={dm}"
 
 
+
+def merged_view(ss, snap, world, all_local, T):
+    """What the nested-dict representation can express at best (the scope of the known 'merge' findings): per entry (Global[basis],
+    Local[basis][atom]) the amplitude, detuning and carried-phase arrays of the contributing channels are ADDED, and the drive of
+    an atom is amp x exp(-i phase) of its entries.  Built from the per-channel samples (which part 1 of this check verifies against
+    the schedule) and the slot windows / weights of the snapshot - not from to_nested_dict()."""
+    masked = set(snap.flags.get("slm_targets") or ())
+    in_xy = bool(snap.flags.get("in_xy"))
+    mask_end = refrender.slm_end(snap, world) if (in_xy and masked) else 0
+    ent = {}  # (addr, basis, q or None) -> [amp, det, phase]
+
+    def entry(key):
+        return ent.setdefault(key, [np.zeros(T), np.zeros(T), np.zeros(T)])
+
+    for name, ch in snap.channels.items():
+        cs = ss.channel_samples[name]
+        if len(cs.amp) != T:
+            cs = cs.extend_duration(T)
+        a, d, ph = (np.asarray(x.as_array(detach=True) if hasattr(x, "as_array") else x, dtype=float) for x in (cs.amp, cs.det, cs.phase))
+        basis = basis_of(ch.ch_id)
+        local = world.params(ch.ch_id)["local"]
+        wts = refrender.weights_of(ch, world) if ch.is_dmm else None
+        if not local and not all_local and not ch.is_dmm:
+            st = mask_end if basis == "XY" else 0
+            e = entry(("G", basis, None))
+            e[0][st:] += a[st:]
+            e[1][st:] += d[st:]
+            e[2][st:] += ph[st:]
+            if st and ch.slots:
+                for q in set(ch.slots[0].targets) - masked:
+                    e = entry(("L", basis, q))
+                    e[0][:st] += a[:st]
+                    e[1][:st] += d[:st]
+                    e[2][:st] += ph[:st]
+            continue
+        pulses = [x for x in ch.slots if x.kind == "pulse"]
+        for k, sl in enumerate(pulses):
+            nxt = pulses[k + 1].ti if k + 1 < len(pulses) else T
+            for q in sl.targets:
+                ti = max(sl.ti, mask_end) if (basis == "XY" and q in masked) else sl.ti
+                if ti >= sl.tf:
+                    continue
+                e = entry(("L", basis, q))
+                tf = min(T, sl.tf + sl.fall_own, nxt)  # the sampler's target windows include the fall time, up to the next pulse
+                e[0][ti:tf] += a[ti:tf]
+                e[1][ti:tf] += d[ti:tf] * (wts[q] if wts is not None else 1.0)
+                e[2][ti:tf] += ph[ti:tf]
+    out = {}
+    for (addr, basis, q), (a, d, ph) in ent.items():
+        dd = out.setdefault(basis, {x: (np.zeros(T, dtype=complex), np.zeros(T)) for x in world.qids})
+        for x in (world.qids if addr == "G" else [q]):
+            dd[x][0][:] += a * np.exp(-1j * ph)
+            dd[x][1][:] += d
+    return out
+
+
 def render(ctx):
     if ctx.exc is not None or not ctx.post.flags["building"]:
         return []
@@ -90,6 +146,7 @@ def render(ctx):
                 out.append((f"C06:nested-dict-raises:{type(e).__name__}", repr(e)[:200]))
                 continue
             got = refrender.impl_atom_view(nested, w.qids, T)
+            merged = None
             for basis, d in ref.items():
                 for q, (drive, det) in d.items():
                     ctx.act["atom_views_checked"] += 1
@@ -99,7 +156,17 @@ def render(ctx):
                     sit = situation(snap, w, basis, q)
                     if not _close(gd, drive):
                         t = int(np.argmax(np.abs(gd - drive) > TOL))
-                        out.append((f"C06:atom-drive:{sit}:all_local={all_local}",
+                        # several channels merged into one entry (known findings): is the sampled value at least the documented
+                        # sum of amplitudes and phases?  If not, it is a different violation and gets a different fingerprint.
+                        kind = "atom-drive"
+                        xy_masked = bool(snap.flags.get("in_xy")) and bool(snap.flags.get("slm_targets"))  # not modelled in merged_view
+                        if not xy_masked and ("globals=2" in sit or (all_local and "globals=1" in sit and "locals=0" not in sit)):
+                            if merged is None:
+                                merged = merged_view(ss, snap, w, all_local, T)
+                            md = merged.get(basis, {}).get(q, (np.zeros(T, dtype=complex), np.zeros(T)))[0]
+                            if not _close(gd, md):
+                                kind = "atom-drive-not-even-the-merged-sum"
+                        out.append((f"C06:{kind}:{sit}:all_local={all_local}",
                                     f"{basis}/{q} at t={t}: sampled {gd[t]:.6f}, scheduled {drive[t]:.6f}"))
                     if not _close(gt, det):
                         t = int(np.argmax(np.abs(gt - det) > TOL))
